@@ -186,7 +186,13 @@ func TestC13(t *testing.T) {
 			// argument with another mapping: other kind, or same kind and accuracy >= 0.1% apart
 			ospec := c.spec
 			alpha := c.m.RelativeAccuracy()
-			switch mm := rapid.IntRange(0, 2).Draw(t, "mismatchclass"); {
+			switch mm := rapid.IntRange(0, 3).Draw(t, "mismatchclass"); {
+			case mm == 3:
+				// same kind, another base, one of them possibly so coarse that its accuracy rounds to 1
+				g0, o0 := gen.GammaOf(c.m)
+				g2 := rapid.SampledFrom([]float64{g0 * 2, g0 * g0, 1e15, 1e30, g0 * 1.001}).Draw(t, "othergamma")
+				ospec = gen.MapSpec{Kind: gen.KindOf(c.m), Gamma: g2, Offset: o0}
+				cl.label("mismatch:base")
 			case mm == 0:
 				for ospec.Kind == c.spec.Kind {
 					ospec.Kind = rapid.SampledFrom(gen.MapKinds).Draw(t, "okind")
